@@ -174,8 +174,9 @@ def stamping(rep, tier, rng):
             elif k == 0:
                 sc += ["write_all 1 %s" % hexs(b"x" * rng.range(1, 700))]; mo += ["write %d %d %d %d %d %d %d" % t]
             elif k == 1:
-                sc += ["seek 1 start 0", "read 1 %d" % rng.range(1, 600)]
-                # a read that returns 0 bytes stamps nothing: only model it when the file has data
+                # reads from the start, from inside a cluster, from cluster boundaries of every cluster size in use and near the end
+                # (a seek beyond the end clamps; a read that returns 0 bytes stamps nothing: only modelled when data came back)
+                sc += ["seek 1 start %d" % rng.choice([0, 0, 0, 16, 511, 512, 513, 700, 2048, 4095, 4096, 4100]), "read 1 %d" % rng.range(1, 600)]
                 mo += ["readmaybe %d %d %d %d" % (acc, t[0], t[1], t[2])]
             elif k == 2:
                 new = rng.choice(["b.txt", "a.txt", "Long Name For Stamp.dat", "c"])
